@@ -278,6 +278,24 @@ Proof.
   eapply quiet_app; eassumption.
 Qed.
 
+Lemma settle_app_q n ds : quiet n (fst (settle_app n ds)).
+Proof.
+  unfold settle_app.
+  pose proof (io_iteration_q n ds) as G2. destruct (io_iteration n ds) as [[n2 o2] ds']. cbn [fst] in *.
+  pose proof (flush_q n2) as G3. destruct (flush n2) as [n3 o3]. cbn [fst].
+  eapply quiet_app; eassumption.
+Qed.
+
+Lemma settle_app'_q n ds : quiet n (settle_app' n ds).
+Proof. unfold settle_app'. pose proof (settle_app_q n ds) as G. destruct (settle_app n ds) as [[n1 o1] d]. exact G. Qed.
+
+Lemma then_settle_app_q n n1 o1 ds :
+  quiet n (n1, o1) -> quiet n (let '(n2, o2) := settle_app' n1 ds in (n2, (o1 ++ o2)%list)).
+Proof.
+  intros G. pose proof (settle_app'_q n1 ds) as G2. destruct (settle_app' n1 ds) as [n2 o2].
+  eapply quiet_app; eassumption.
+Qed.
+
 Lemma wake_q target fuel :
   forall n ds acc n0, n_app_waiting n = n_app_waiting n0 -> List.Forall noans acc -> quiet n0 (wake target fuel n ds acc).
 Proof.
@@ -634,7 +652,7 @@ Proof.
   - (* EAppAnswer *)
     cbn [step]. pose proof (route_answer_aw n m) as F. destruct (route_answer n m) as [[cid|] n1]; cbn [snd] in F.
     + pose proof (send_message_q n1 cid m) as G. destruct (send_message n1 cid m) as [n2 o2].
-      apply then_settle_q. eapply quiet_pre; eassumption.
+      apply then_settle_app_q. eapply quiet_pre; eassumption.
     + split; [exact F|constructor; [exact I|constructor]].
   - exfalso. eapply Hnq. reflexivity.
   - (* EStop *)
@@ -701,14 +719,14 @@ Proof.
   destruct (o_hbh a =? 0); cbv zeta in H.
   - match type of H with context [send_message ?x ?cc ?mm] => set (n3 := x) in H; set (m' := mm) in H end.
     rewrite (send_message_req_eq n3 cid m' eq_refl) in H.
-    match type of H with context [settle' ?x ds] => set (n4 := x) in H end.
-    pose proof (settle'_q n4 ds) as [G _]. destruct (settle' n4 ds) as [n5 o5]. injection H as <- <-.
+    match type of H with context [settle_app' ?x ds] => set (n4 := x) in H end.
+    pose proof (settle_app'_q n4 ds) as [G _]. destruct (settle_app' n4 ds) as [n5 o5]. injection H as <- <-.
     exists m', o5. split; [reflexivity|]. cbn [fst] in G. rewrite G.
     cbn [n4 n3 n_app_waiting set_conns set_apps set_waiting]. rewrite aw_filter_ext, F0. reflexivity.
   - match type of H with context [send_message ?x ?cc ?mm] => set (n3 := x) in H; set (m' := mm) in H end.
     rewrite (send_message_req_eq n3 cid m' eq_refl) in H.
-    match type of H with context [settle' ?x ds] => set (n4 := x) in H end.
-    pose proof (settle'_q n4 ds) as [G _]. destruct (settle' n4 ds) as [n5 o5]. injection H as <- <-.
+    match type of H with context [settle_app' ?x ds] => set (n4 := x) in H end.
+    pose proof (settle_app'_q n4 ds) as [G _]. destruct (settle_app' n4 ds) as [n5 o5]. injection H as <- <-.
     exists m', o5. split; [reflexivity|]. cbn [fst] in G. rewrite G.
     cbn [n4 n3 n_app_waiting set_conns set_apps set_waiting]. rewrite aw_filter_ext, F0. reflexivity.
 Qed.
@@ -1260,12 +1278,22 @@ Proof.
   apply dq_app; [exact C1|]. apply dq_app; assumption.
 Qed.
 
+Lemma settle_app'_dq cid n ds :
+  NodeD.W n -> NodeD.at_conn cid dying n -> dq cid (settle_app' n ds).
+Proof.
+  intros HW Hd. unfold settle_app', settle_app.
+  pose proof (io_iteration_dq cid n ds HW Hd) as (A2 & B2 & C2).
+  destruct (io_iteration n ds) as [[n2 o2] ds']. cbn [fst snd] in *.
+  pose proof (flush_dq cid n2 A2 B2) as G3. destruct (flush n2) as [n3 o3].
+  apply dq_app; assumption.
+Qed.
+
 (* Application.send_request: NotRoutable, or the request followed by the settling of the I/O thread from
    a state n4 that the node reaches by atomic transitions which leave the connection states alone *)
 Lemma step_req_decomp n ds i a realm pick tmo :
   snd (step n ds (EAppRequest i a realm pick tmo)) = [ONotRoutable] \/
   exists cid m' n4,
-    snd (step n ds (EAppRequest i a realm pick tmo)) = OQueue cid m' :: snd (settle' n4 ds) /\
+    snd (step n ds (EAppRequest i a realm pick tmo)) = OQueue cid m' :: snd (settle_app' n4 ds) /\
     NodeD.trans NodeD.MAny n n4 /\ NodeA.evolves NodeA.NoP NodeA.NoP NodeA.NoP n n4.
 Proof.
   rewrite step_app_request.
@@ -1304,14 +1332,14 @@ Proof.
   destruct (o_hbh a =? 0); cbv zeta.
   - match goal with |- context [send_message ?x ?cc ?mm] => set (n3 := x); set (m' := mm) end.
     rewrite (send_message_req_eq n3 cid m' eq_refl).
-    match goal with |- context [settle' ?x ds] => set (n4 := x) end.
-    exists m', n4. split; [destruct (settle' n4 ds) as [n5 o5]; reflexivity|].
+    match goal with |- context [settle_app' ?x ds] => set (n4 := x) end.
+    exists m', n4. split; [destruct (settle_app' n4 ds) as [n5 o5]; reflexivity|].
     unfold n4. apply Hsoft; [intros x; repeat split|]. unfold n3. apply Htab.
     apply Hsoft; [intros x; repeat split|]. split; assumption.
   - match goal with |- context [send_message ?x ?cc ?mm] => set (n3 := x); set (m' := mm) end.
     rewrite (send_message_req_eq n3 cid m' eq_refl).
-    match goal with |- context [settle' ?x ds] => set (n4 := x) end.
-    exists m', n4. split; [destruct (settle' n4 ds) as [n5 o5]; reflexivity|].
+    match goal with |- context [settle_app' ?x ds] => set (n4 := x) end.
+    exists m', n4. split; [destruct (settle_app' n4 ds) as [n5 o5]; reflexivity|].
     unfold n4. apply Hsoft; [intros x; repeat split|]. unfold n3. apply Htab. split; assumption.
 Qed.
 
@@ -1329,7 +1357,7 @@ Proof.
     destruct (step_req_full _ _ _ _ _ _ _ _ _ Hs) as [[E1 _]|(cid1 & c & m1 & rest & E1 & _ & _ & _ & _ & Hc & Hr & _)];
       rewrite Ho in E1; [discriminate E1|].
     injection E1 as <- _ _. destruct Hd as [_ Hd]. destruct (Hd c Hc) as [_ Hnr]. congruence.
-  - destruct (dying_ev0 _ _ _ HW T E Hd) as [HW4 Hd4]. apply (settle'_dq cid n4 ds HW4 Hd4).
+  - destruct (dying_ev0 _ _ _ HW T E Hd) as [HW4 Hd4]. apply (settle_app'_dq cid n4 ds HW4 Hd4).
 Qed.
 
 (* C12 (history): once a plain DPR has been read from connection cid while it was ready, then at every later event of the history connection cid -- as long as it exists; its number stays below the connection counter, so it is never given to another connection -- is DISCONNECTING, CLOSING or CLOSED (not ready) when the event starts, and a send_request hands nothing to connection cid: neither the application's request nor anything the I/O thread sends while it settles *)
